@@ -130,7 +130,7 @@ SHARDS = 16
 SIGNALS = ["HUP", "INT", "KILL", "TERM", "USR1", "PIPE"]
 SETTLE_ITERS = 25
 GRACE_STEPS = 10  # x 25 ms, only entered when something is still unreported
-DEATH_CAP_S = 15.0  # a released child that is not dead by then is a harness problem (exit 2)
+DEATH_CAP_S = 60.0  # a released child that is not dead by then is a harness problem (exit 2)
 _RESET = [signal.SIGHUP, signal.SIGINT, signal.SIGQUIT, signal.SIGTERM, signal.SIGUSR1, signal.SIGUSR2]
 
 
